@@ -140,6 +140,14 @@ def mutations(rng, tok, key, alg, pool, dense):
         yield ("[junk,key] all=%s" % all_, tok, None, [5, key], all_, not all_)
         yield ("[other,other] all=%s" % all_, tok, None, [other, other], all_, False)
         yield ("keys not array all=%s" % all_, tok, None, {"keys": key}, all_, False)
+        # key lists inside key lists: the inner list inherits any / all
+        yield ("[{keys:[key,other]}] all=%s" % all_, tok, None, [{"keys": [key, other]}], all_, not all_)
+        yield ("{keys:[{keys:[key,other]}]} all=%s" % all_, tok, None, {"keys": [{"keys": [key, other]}]}, all_, not all_)
+        yield ("[[key],[other]] all=%s" % all_, tok, None, [[key], [other]], all_, not all_)
+        yield ("[[key,key],{keys:[key]}] all=%s" % all_, tok, None, [[key, key], {"keys": [key]}], all_, True)
+        yield ("[[]] all=%s" % all_, tok, None, [[]], all_, False)
+        yield ("[key,[]] all=%s" % all_, tok, None, [key, []], all_, not all_)
+        yield ("[[[key]]] all=%s" % all_, tok, None, [[[key]]], all_, True)
     # 6. explicit sig argument
     yield ("sig = token", tok, tok, key, False, True)
     yield ("sig = other object", tok, dict(tok, signature=flip_char(sigv, 0)), key, False, None)
